@@ -191,85 +191,32 @@ fn c07(tier: &str, seed: u64, replay: Option<Value>) -> Rep {
 // ---------------------------------------------------------------------------------------------
 // C20 layer 2: in-process
 
-/// from_repr_inner converts a string through proc_macro::TokenStream (the compiler's own API,
-/// unavailable outside a real macro expansion), so FromRepr cannot run in-process; it is covered
-/// by the rustc layer only.
-const NOT_IN_PROCESS: [&str; 1] = ["FromRepr"];
-
 fn check_case(c: &malformed::Case, rep: &mut Rep, derives: &[&str]) {
-    let src = c.source.replace("ITEM", "Item");
     for dname in derives {
-        if NOT_IN_PROCESS.contains(dname) {
+        if vinproc::NOT_IN_PROCESS.contains(dname) {
             continue;
         }
         rep.evaluations += 1;
-        let out = expand(dname, &src);
-        let input = json!({"rule": c.rule, "variation": c.variation, "derive": dname, "source": src});
         let required = c.must_reject.iter().any(|x| x == dname);
         let must_accept = c.must_accept.iter().any(|x| x == dname);
         if required {
             rep.nontrivial.insert(vmodel::fnv(format!("{}|{}|{}", c.rule, dname, c.variation).as_bytes()));
         }
+        let (out, v) = vinproc::judge(c, dname);
         match &out {
-            Outcome::Panic(p) => rep.fail(&format!("macro-panic:{}", dname), input, "Ok or Err, never a panic".into(), format!("panicked: {}", p)),
-            Outcome::NotAnItem(e) => {
-                // rustc itself rejects the text; nothing reaches the macro
-                rep.class("not-an-item");
-                if required || must_accept {
-                    rep.fail("harness:case-does-not-parse", input, "a DeriveInput".into(), e.clone());
-                }
-            }
-            Outcome::Ok(tokens) => {
-                if required {
-                    rep.fail(&format!("silently-accepted:{}:{}", c.rule, dname), input, "a compile error".into(), "an implementation was generated".into());
-                } else if must_accept && !vinproc::parses_as_items(tokens) {
-                    rep.fail(&format!("expansion-not-items:{}", dname), input, "tokens that parse as items".into(), tokens.chars().take(300).collect());
-                }
-                rep.class(if must_accept { "control-accepted" } else { "accepted" });
-            }
-            Outcome::Err(msg, _) => {
-                if must_accept {
-                    rep.fail(&format!("valid-input-rejected:{}", dname), input, "Ok".into(), msg.clone());
-                }
-                rep.class(if required { "required-reject" } else { "rejected" });
-            }
+            Outcome::NotAnItem(_) => rep.class("not-an-item"),
+            Outcome::Ok(_) => rep.class(if must_accept { "control-accepted" } else { "accepted" }),
+            Outcome::Err(..) => rep.class(if required { "required-reject" } else { "rejected" }),
+            Outcome::Panic(_) => rep.class("panic"),
+        }
+        if let Some((kind, e, a)) = v {
+            let input = json!({"rule": c.rule, "variation": c.variation, "derive": dname, "source": c.source.replace("ITEM", "Item")});
+            rep.fail(&kind, input, e, a);
         }
     }
 }
 
-/// token-level mutations of a valid item: only "never panics" is demanded
-fn mutate(rg: &mut Rg, src: &str) -> String {
-    let toks: Vec<&str> = src.split_inclusive(|c: char| c == ' ' || c == ',' || c == '(' || c == ')' || c == '=' || c == '\n').collect();
-    let mut t: Vec<String> = toks.iter().map(|s| s.to_string()).collect();
-    let frag = [
-        "disabled", "default", "transparent", "serialize = \"x\"", "to_string = \"{0}\"", "props(a = 1.0)", "props(a = 'c')", "default_with = \"a::b\"",
-        "#[strum(default)]", "#[strum(disabled, disabled)]", "1.5", "'x'", "\"{\"", "= ", "(", ")", ",", "<'a>", "r#type", "#[repr(u8)]", "= 7", "\"\"",
-        "#[strum_discriminants(name(r#X))]", "ascii_case_insensitive = false", "serialize_all = \"Snake\"", "message", "use_phf",
-    ];
-    for _ in 0..rg.range(1, 3) {
-        if t.is_empty() {
-            break;
-        }
-        let p = rg.below(t.len());
-        match rg.below(4) {
-            0 => {
-                t.remove(p);
-            }
-            1 => {
-                let x = t[p].clone();
-                t.insert(p, x);
-            }
-            2 => {
-                t.insert(p, format!("{} ", rg.pick(&frag)));
-            }
-            _ => {
-                let q = rg.below(t.len());
-                t.swap(p, q);
-            }
-        }
-    }
-    t.concat()
-}
+use vinproc::mutate;
 
 fn c20(tier: &str, seed: u64, replay: Option<Value>) -> Rep {
     let mut rep = Rep::default();
